@@ -4,7 +4,6 @@
   state the ISA interpreter prescribes.
 -/
 import FalconProofs.C02.Core
-import Std.Tactic.BVDecide
 
 namespace Falcon.Isa.Mips
 open Falcon Falcon.Sem Falcon.Const
@@ -28,7 +27,9 @@ theorem assign_reg_correct {σ : State} (hσ : StateOK σ) (a : Nat) (rd : Reg) 
 
 /-! ### values of the operand expressions -/
 
-theorem xor_allOnes32 (z : Word) : z ^^^ 0xffffffff#32 = ~~~z := by bv_decide
+theorem xor_allOnes32 (z : Word) : z ^^^ 0xffffffff#32 = ~~~z := by
+  have : (0xffffffff#32) = BitVec.allOnes 32 := by decide
+  rw [this, BitVec.xor_allOnes]
 
 theorem r3Expr_value {σ : State} (hσ : StateOK σ) (op : R3) (rd rs rt : Reg) (e : Expr) (he : r3Expr op rs rt = some e) :
     TypedE σ e ∧ e.bits = 32 ∧
